@@ -50,7 +50,8 @@ PSet(s)   == [s EXCEPT !.st = St("Stopped", s.tmp), !.chan = Append(@, StateEv(s
 StepOutRun(R, j, dev) == IF "StepOutReadsTopOfStack" \in dev THEN StepOutImpl(R, j)
                          ELSE IF Depth(R[j]) = 0 THEN Len(R) ELSE StepOutT(R, j)
 StepImpl(prog, R, kind, j, dev) == CASE kind = "stepIn" -> Succ(R, j)
-                                [] kind = "next" -> NextImpl(prog, R, j)
+                                [] kind = "next" -> IF "NextIgnoresCallDepth" \in dev THEN NextImpl(prog, R, j)   \* waits for pc0 + 3 only
+                                                    ELSE NextT(prog, R, j)                                   \* step in, then out: call depth counts
                                 [] kind = "stepOut" -> StepOutRun(R, j, dev)
 SExec(prog, R, s, kind, dev) == [s EXCEPT !.ix = StepImpl(prog, R, kind, s.ix, dev), !.sp = "pread", !.kind = kind]
 SetBps(s, B) == [s EXCEPT !.bps = B]
